@@ -34,6 +34,7 @@ type PubSession struct {
 	disposeOnce sync.Once
 	udpConn     *nazanet.UdpConnection
 	listener    net.Listener
+	tcpConnMu   sync.Mutex // 保护 tcpConn ，accept协程写，Dispose（其他协程）读
 	tcpConn     net.Conn
 	sessionStat base.BasicSessionStat
 }
@@ -192,6 +193,8 @@ func (session *PubSession) runLoopUdp() error {
 		session.feedPacket(b)
 		return true
 	})
+	// 注意，unpacker只在读协程中使用，所以在读协程退出时销毁（而不是在Dispose的调用协程中）
+	session.unpacker.Dispose()
 	return err
 }
 
@@ -203,6 +206,7 @@ func (session *PubSession) runLoopTcp() error {
 			return err
 		}
 
+		session.tcpConnMu.Lock()
 		if session.tcpConn != nil {
 			nazalog.Warnf("[%s] tcp conn already exist, close the prev. err=%+v", session.UniqueKey(), err)
 			session.tcpConn.Close()
@@ -210,6 +214,7 @@ func (session *PubSession) runLoopTcp() error {
 		}
 
 		session.tcpConn = conn
+		session.tcpConnMu.Unlock()
 
 		go func() {
 			lb := make([]byte, 2)
@@ -228,6 +233,7 @@ func (session *PubSession) runLoopTcp() error {
 
 				session.feedPacket(b)
 			}
+			session.unpacker.Dispose()
 		}()
 	}
 }
@@ -246,11 +252,14 @@ func (session *PubSession) dispose(err error) error {
 	session.disposeOnce.Do(func() {
 		Log.Infof("[%s] lifecycle dispose gb28181 PubSession. err=%+v", session.UniqueKey(), err)
 		if session.isTcpFlag {
-			if session.tcpConn == nil {
+			session.tcpConnMu.Lock()
+			tcpConn := session.tcpConn
+			session.tcpConnMu.Unlock()
+			if tcpConn == nil {
 				retErr = base.ErrSessionNotStarted
 				return
 			}
-			retErr = session.tcpConn.Close()
+			retErr = tcpConn.Close()
 		} else {
 			if session.udpConn == nil {
 				retErr = base.ErrSessionNotStarted
@@ -258,8 +267,6 @@ func (session *PubSession) dispose(err error) error {
 			}
 			retErr = session.udpConn.Dispose()
 		}
-
-		session.unpacker.Dispose()
 	})
 	return retErr
 }
